@@ -73,7 +73,9 @@ func simJobBin(bin string, cmd c16sim.Command, gomaxprocs int, timeout time.Dura
 	if cmd.Out == "" {
 		cmd.Out = filepath.Join(*work, fmt.Sprintf("out-%d.json", cmdSeq))
 	}
-	cmd.Isolate = isolate
+	// (a candidate of the minimiser under a seeded schedule must meet the simulator in the state a fresh
+	// process has: goroutines left behind by earlier candidates would take part in the schedule)
+	cmd.Isolate = isolate || (useSched && cmd.Mode == "minimise")
 	if err := drv.WriteJSON(cmdPath, cmd); err != nil {
 		fatal("%v", err)
 	}
@@ -365,7 +367,13 @@ func explore(parallel int) bool {
 	known := 0
 	all := append([]c16sim.ViolationRec{}, a.violations...)
 	all = append(all, sl.violations...)
-	sort.SliceStable(all, func(i, j int) bool { return len(all[i].Case.Input) < len(all[j].Case.Input) })
+	sort.SliceStable(all, func(i, j int) bool {
+		// a violation found under a seeded schedule replays exactly: prefer it as the witness of its class
+		if si, sj := all[i].Case.Sched != 0, all[j].Case.Sched != 0; si != sj {
+			return si
+		}
+		return len(all[i].Case.Input) < len(all[j].Case.Input)
+	})
 	seenClass := map[string]bool{}
 	var lines []string
 	n := 0
